@@ -90,7 +90,15 @@ impl<'a> ExpressionEvaluator<'a> {
         self.program().expect_next_token(Token::RightParen)?;
         self.program()
             .push_function_call_onto_stack_and_goto_it(function_name, bindings)?;
-        let value = self.evaluate_expression()?;
+        let value = match self.evaluate_expression() {
+            Ok(value) => value,
+            Err(err) => {
+                // The error is reported where it occurred, but the call's frame
+                // (and its bindings) must not outlive the call.
+                self.program().pop_function_call_off_stack();
+                return Err(err);
+            }
+        };
         self.program()
             .pop_function_call_off_stack_and_return_from_it();
 
